@@ -276,3 +276,106 @@ __CPROVER_assigns (g_m1_calls, g_m1_u, g_m1_d, g_m1_res, g_m1_n);
 for _k in 'tfc':
     for _wr in (False, True):
         UNITS.append(_ui_unit(_k, _wr))
+
+# ------------------------------------------------------------------ mpz_{t,f,c}div_q_ui and _qr_ui over the ASSUMED contract of mpn_divrem_1
+# the adjustment step q+1 (MPN_INCR_U) is PROVED on the limbs: trailing all-ones limbs become 0, the first other limb is incremented, the rest is unchanged
+D1_CONTRACT = '''_Bool g_div0_expected; int g_d1_calls; mp_limb_t g_d1_u, g_d1_d, g_d1_r, g_d1_qk, g_d1_qj, g_d1_qt; long g_d1_n, g_d1_nm;
+void __gmp_divide_by_zero (void) { __CPROVER_assert (g_div0_expected, "[C02] DIVIDE_BY_ZERO is raised only when the divisor is zero"); __CPROVER_assume (0); }
+/* ASSUMED (not proved by any unit): mpn_divrem_1 (qp, 0, {np,nn}, d) for nn >= 1, d != 0, qp == np or separate: nn quotient limbs (abstract; the limbs at gk, gj are
+   captured), remainder r < d.  Elementary facts about a true quotient q = floor(N/d), N < B^nn with non-zero top limb:
+   (a) at most one high zero limb; (b) r != 0 ==> q != B^nn - 1, so q has a lowest limb g_d1_nm that is not all ones (all limbs below it are: delivered at gh) */
+mp_limb_t __gmpn_divrem_1 (mp_ptr qp, mp_size_t qxn, mp_srcptr np, mp_size_t nn, mp_limb_t d)
+__CPROVER_requires (qxn == 0 && 1 <= nn && nn <= V_ZMAX && d != 0 && V_W_OK (qp, nn) && V_R_OK (np, nn) && V_SAME_OR_SEPARATE (qp, np, nn) && V_GHOSTS_OK)
+__CPROVER_assigns (__CPROVER_object_upto (qp, nn * 8), g_d1_calls, g_d1_u, g_d1_d, g_d1_r, g_d1_qk, g_d1_qj, g_d1_qt, g_d1_n, g_d1_nm)
+__CPROVER_ensures (g_d1_calls == __CPROVER_old (g_d1_calls) + 1 && g_d1_n == nn && g_d1_d == d && g_d1_u == V_OLDSEL (gk < nn, np + gk))
+__CPROVER_ensures (__CPROVER_return_value == g_d1_r && g_d1_r < d)
+__CPROVER_ensures ((gk < nn ==> g_d1_qk == qp[gk]) && (gj < nn ==> g_d1_qj == qp[gj]) && g_d1_qt == qp[nn - 1])
+__CPROVER_ensures ((V_OLDSEL (nn >= 1, np + (nn - 1)) != 0 && nn >= 2 && qp[nn - 1] == 0) ==> qp[nn - 2] != 0)
+__CPROVER_ensures (g_d1_r != 0 ==> (0 <= g_d1_nm && g_d1_nm < nn && qp[g_d1_nm] != ~(mp_limb_t) 0 && (gh < g_d1_nm ==> qp[gh] == ~(mp_limb_t) 0)));
+'''
+def _incr_loop(first):
+    T = '(__p - qp)' if first else '((__p - qp) + 1)'
+    X = lambda g, q: '((%s < TT ==> qp[%s] == 0) && ((TT <= %s && %s < nn) ==> qp[%s] == %s))' % (g, g, g, g, g, q)
+    inv = ('(__CPROVER_same_object (__p, qp) && LO <= TT && TT <= g_d1_nm && g_d1_nm < nn && nn == g_d1_n && qp == quot->_mp_d && qp[g_d1_nm] != ~(mp_limb_t) 0 && V_W_OK (qp, nn) && '
+           + X('gk', 'g_d1_qk') + ' && ' + X('gj', 'g_d1_qj') + ' && ' + X('(nn - 1)', 'g_d1_qt') + ')').replace('TT', T).replace('LO', '0' if first else '1')
+    hv = ('{ long V_t = nondet_long (); __CPROVER_assume (%d <= V_t && V_t <= g_d1_nm); __p = qp + V_t%s; }' % (0 if first else 1, '' if first else ' - 1'))
+    return dict(scalars=[], havoc_targets=['__p'], havoc=hv, slices=[('qp', 'nn * 8')], inv=inv, dec='(g_d1_nm - %s)' % T,
+                head='__CPROVER_assume (%s < g_d1_nm ==> qp[%s] == ~(mp_limb_t) 0);' % (T, T))
+def _qui_unit(kind, with_rem):
+    f = '__gmpz_%sdiv_q%s_ui' % (kind, 'r' if with_rem else '')
+    name = 'mpz_%sdiv_q%s_ui' % (kind, 'r' if with_rem else '')
+    adj = {'t': '0', 'f': '(ns < 0)', 'c': '(ns >= 0)'}[kind]
+    rsign = {'t': '(ns < 0)', 'f': '0', 'c': '1'}[kind]
+    if with_rem:
+        sig = '(mpz_ptr quot, mpz_ptr rem, mpz_srcptr dividend, mpir_ui divisor)'
+        req = 'V_WF (quot) && V_WF (rem) && V_WF (dividend) && quot != rem'
+        asg = '*quot, __CPROVER_object_whole (V_PTR (quot)), rem->_mp_size, __CPROVER_object_upto (V_PTR (rem), 8)'
+        ens = 'V_WF_AT (quot, gk) && V_WF_AT (quot, gj) && V_WF_AT (rem, gk)'
+        objs = mpz_obj('Q') + mpz_obj('R') + mpz_obj('N') + '  mpz_ptr q = &Q, r = &R; mpz_srcptr n = &N;\nALIASBLOCK\n'
+        call = '%s (q, r, n, d)' % f
+        wf = 'V_WF (q) && V_WF (r) && V_WF (n)'
+        aliases = (('', ''), ('nq', '  n = q;'), ('nr', '  n = r;'))
+    else:
+        sig = '(mpz_ptr quot, mpz_srcptr dividend, mpir_ui divisor)'
+        req = 'V_WF (quot) && V_WF (dividend)'
+        asg = '*quot, __CPROVER_object_whole (V_PTR (quot))'
+        ens = 'V_WF_AT (quot, gk) && V_WF_AT (quot, gj)'
+        objs = mpz_obj('Q') + mpz_obj('N') + '  mpz_ptr q = &Q; mpz_srcptr n = &N;\nALIASBLOCK\n'
+        call = '%s (q, n, d)' % f
+        wf = 'V_WF (q) && V_WF (n)'
+        aliases = (('', ''), ('nq', '  n = q;'))
+    contract = '''mpir_ui %s %s
+__CPROVER_requires (%s && V_GHOSTS_OK)
+__CPROVER_assigns (%s, g_d1_calls, g_d1_u, g_d1_d, g_d1_r, g_d1_qk, g_d1_qj, g_d1_qt, g_d1_n, g_d1_nm)
+__CPROVER_frees (V_PTR (quot))
+__CPROVER_ensures (%s);
+''' % (f, sig, req, asg, ens)
+    h = '''void h_%(name)s (void) {
+%(objs)s  mpir_ui d = nondet_ulong ();
+  gk = nondet_long (); gj = nondet_long (); gh = nondet_long ();
+  __CPROVER_assume (V_GHOSTS_OK && %(wf)s);
+  long ns = V_SIZ (n), nl = V_ABS (ns); mp_limb_t Nk = gk < nl ? V_PTR (n)[gk] : 0;
+  g_div0_expected = (d == 0); g_d1_calls = 0;
+  mpir_ui ret = %(call)s;
+  __CPROVER_assert (d != 0, "[C02] returned normally, so the divisor was not zero");
+  long qs = V_SIZ (q), ql = V_ABS (qs);
+  if (ns == 0)
+    __CPROVER_assert (ret == 0 && qs == 0 && g_d1_calls == 0, "[C02] 0 / d: quotient 0, remainder 0");
+  else
+    {
+      __CPROVER_assert (g_d1_calls == 1 && g_d1_n == nl && g_d1_d == d && g_d1_u == Nk, "[C02][C05] one single-limb division of the original limbs of |n| by d");
+      mp_limb_t t = g_d1_r; _Bool adj = (t != 0 && %(adj)s);
+      __CPROVER_assert (ret == (adj ? d - t : t) && ret < d, "[C02] return value is |r| per the rounding rule");
+      __CPROVER_assert ((ql == nl || ql == nl - 1) && (qs == 0 || (qs < 0) == (ns < 0)), "[C02] quotient: nl or nl-1 limbs, sign of the dividend (the divisor is positive)");
+      if (!adj)
+        __CPROVER_assert (gk < nl ==> V_PTR (q)[gk] == g_d1_qk, "[C02] no adjustment: the truncated quotient limb for limb");
+      else
+        /* |q| = |q_trunc| + 1: limbs below the lowest not-all-ones limb become 0, that limb is incremented, the rest is unchanged */
+        __CPROVER_assert (gk < nl ==> V_PTR (q)[gk] == (gk < g_d1_nm ? (mp_limb_t) 0 : (gk == g_d1_nm ? g_d1_qk + 1 : g_d1_qk)), "[C02] adjustment: |q| = |q_trunc| + 1 as a carry chain on the limbs");
+    }
+%(rempost)s  if (n != q%(nr)s) __CPROVER_assert ((long) V_SIZ (n) == ns && (gk < nl ==> V_PTR (n)[gk] == Nk), "[C05] dividend (not an output) unchanged");
+}'''
+    rempost = ''
+    if with_rem:
+        rempost = '''  __CPROVER_assert (ret == 0 ? V_SIZ (r) == 0 : (V_ABS ((long) V_SIZ (r)) == 1 && V_PTR (r)[0] == ret && (V_SIZ (r) < 0) == (_Bool) %s), "[C02] remainder stored: magnitude = return value, sign per rounding rule");
+''' % rsign
+    loops = {} if kind == 't' else {0: _incr_loop(True), 1: _incr_loop(False)}
+    muts = {'t': [(r'qn = nn - \(qp\[nn - 1\] == 0\);', 'qn = nn;')],
+            'f': [(r'rl != 0 && ns < 0' if not with_rem else r'if \(ns < 0\)', 'rl != 0 && ns <= 0 && rl > 1' if not with_rem else 'if (ns < 0 && rl > 1)'), (r'ns >= 0 \? qn : -qn', 'ns >= 0 ? qn : qn')],
+            'c': [(r'rl != 0 && ns >= 0' if not with_rem else r'if \(ns >= 0\)', 'ns >= 0' if not with_rem else 'if (ns <= 0)')]}[kind]
+    base = dict(name=name, props=['C02', 'C04', 'C05', 'C15'], source='mpz/%sdiv_q%s_ui.c' % (kind, 'r' if with_rem else ''),
+                contracts=['mpn.h', 'mpz.h'], contract_text=D1_CONTRACT + contract, enforce=[f], replace=['__gmpn_divrem_1', '__gmpz_realloc'],
+                functions={f: dict(loops=loops)},
+                assumptions=['mpn_divrem_1: ASSUMED contract (abstract quotient limbs and remainder r < d; at most one high zero quotient limb; r != 0 ==> the quotient is not all ones, with the lowest not-all-ones limb as a ghost whose defining "all limbs below are all ones" is instantiated at the limb each iteration of the increment reads); the quotient VALUE is not specified'],
+                harness=h % dict(name=name, objs=objs, wf=wf, call=call, adj=adj, rempost=rempost, nr=' && n != r' if with_rem else ''), timeout=900,
+                selftest=[(f, a, b) for a, b in muts])
+    out = []
+    for t, c in aliases:
+        v = dict(base); v['name'] = name + ('_' + t if t else '')
+        v['harness'] = base['harness'].replace('ALIASBLOCK', c).replace('h_%s (void)' % name, 'h_%s (void)' % v['name'])
+        if t: v['selftest'] = []
+        out.append(v)
+    return out
+for _k in 'tfc':
+    for _wr in (False, True):
+        UNITS.extend(_qui_unit(_k, _wr))
